@@ -1,6 +1,6 @@
 (* C13 - listeners fire in documented order, once each; ignore stops later stages. *)
 From Coq Require Import ZArith List Bool.
-From PyCraft Require Import Model.Dispatch Proofs.DispatchProofs.
+From PyCraft Require Import Model.Dispatch Proofs.DispatchProofs Proofs.FlushProofs.
 From PyCraft Require Model.LoopErr Proofs.LoopErrProofs.
 Import ListNotations.
 Open Scope Z_scope.
@@ -85,6 +85,28 @@ Theorem C13_registration : forall regs,
 Proof. exact register_order. Qed.
 Print Assumptions C13_registration.
 
+(* The flush of the outgoing queue (disconnect(), the write phase of the loop): a packet vetoed by an outgoing listener
+   (IgnorePacket) or refused by its own write is skipped - for that packet only; every other queued packet is written, in
+   queue order, once, and the queue is empty afterwards. *)
+Theorem C13_flush_skips_only_vetoed : forall subclass early_out late_out write ps,
+  Forall (no_raise subclass early_out late_out write) ps ->
+  let '(log, o, rest) := flush_all subclass early_out late_out write ps in
+  written_keys log = map p_key (filter (goes_out subclass early_out write) ps) /\ rest = [] /\ (forall e, o <> ORaised e).
+Proof. exact flush_skips_only_vetoed. Qed.
+Print Assumptions C13_flush_skips_only_vetoed.
+
+(* An exception other than IgnorePacket ends the flush at that packet: what precedes it was written as above, what
+   follows it is still queued, and the exception is the outcome. *)
+Theorem C13_flush_stops_at_raise : forall subclass early_out late_out write pre p post e,
+  Forall (no_raise subclass early_out late_out write) pre ->
+  snd (write_out subclass early_out late_out write p) = ORaised e ->
+  let '(log, o, rest) := flush_all subclass early_out late_out write (pre ++ p :: post) in
+  o = ORaised e /\ rest = post /\
+  written_keys log = map p_key (filter (goes_out subclass early_out write) pre)
+                     ++ (if goes_out subclass early_out write p then [p_key p] else []).
+Proof. exact flush_stops_at_raise. Qed.
+Print Assumptions C13_flush_stops_at_raise.
+
 Definition sub01 (c t : Z) : bool := (c =? t) || (t =? 0).      (* class 0 is the root *)
 Example C13_ex :
   let L i f b := {| l_id := i; l_filter := f; l_beh := fun _ => b |} in
@@ -93,3 +115,11 @@ Example C13_ex :
   react_in sub01 [L 1 [7] Return] [L 4 [0] Return; L 5 [3] Return] (fun _ => Return) {| p_key := 9; p_cls := 7 |}
     = ([Call 1 9; Reaction 9; Call 4 9], ODone).
 Proof. vm_compute. split; reflexivity. Qed.
+
+Example C13_ex_flush :
+  let L i f b := {| l_id := i; l_filter := f; l_beh := b |} in
+  let veto := L 1 [0] (fun p => if p_key p =? 20 then Ignore else Return) in
+  let P k := {| p_key := k; p_cls := 7 |} in
+  flush_all sub01 [veto] [L 2 [0] (fun _ => Return)] (fun _ => Return) [P 10; P 20; P 30]
+    = ([Call 1 10; Written 10; Call 2 10; Call 1 20; Call 1 30; Written 30; Call 2 30], ODone, []).
+Proof. vm_compute. reflexivity. Qed.
